@@ -4,45 +4,36 @@
   Model: MpModel/Str.lean (`str_to_man_exp`, `from_str`; the last argument `0` of both switches off
   CPython's 4300-digit limit of `int(str)`, which the model carries as a parameter).
   Vocabulary: `decValue s : Option ℚ` (MpProofs/Str.lean) is the value of the decimal literal `s`
-  `[+-] digits [. digits] [(e|E) [+-] digits]`, read digit by digit; `RoundOK` is in MpProofs/Spec.lean.
+  `[+-] digits [. digits] [(e|E) [+-] digits]` (digit group separators `_` allowed between digits),
+  read digit by digit; `RoundOK` is in MpProofs/Spec.lean.
 -/
 import MpProofs.StrFrom
+import MpProofs.StrIv
 
 namespace Mp
 
-/-- after an optional sign the string starts with a digit -/
-def StartsWithDigit (s : String) : Prop := ∃ c r, dropSign s.toList = c :: r ∧ isDigitC c = true
-
 /-! ### the parser -/
 
-/- Full statement (FALSE of the code, see `parse_value_counterexample`):
-   ∀ s v, decValue s = some v → ∃ man exp, str_to_man_exp s 0 = .ok (man, exp) ∧ man · 10^exp = v. -/
-
-/-- For every decimal literal, except those with no digit before the point and only zeros after it,
-`str_to_man_exp` succeeds and `man · 10^exp` is exactly the value of the literal (stripping of
-trailing fractional zeros and the `exp -= len(b)` adjustment included). -/
-theorem parse_value_partial (s : String) (v : ℚ) (h : decValue s = some v)
-    (hnd : v ≠ 0 ∨ StartsWithDigit s) :
+/-- **The parser computes the value of the literal.** For every decimal literal in the grammar of
+Python's `float()` — optional sign, digits with optional point (also `.5`, `5.`, `.0`), optional
+`e|E` exponent, digit group separators `_` between digits — `str_to_man_exp` succeeds and
+`man · 10^exp` is exactly the value of the literal (stripping of trailing fractional zeros, the
+`exp -= len(b)` adjustment, removal of separators and the `'' → '0'` padding included). -/
+theorem parse_value (s : String) (v : ℚ) (h : decValue s = some v) :
     ∃ man exp, str_to_man_exp s 0 = .ok (man, exp) ∧ (man : ℚ) * (10 : ℚ) ^ exp = v :=
-  strToManExp_value h hnd
+  strToManExp_value h
 
-example : decValue "-012.50E+3" = some (-12500) ∧ StartsWithDigit "-012.50E+3" :=
-  ⟨by decide +kernel, ⟨'0', _, rfl, by decide⟩⟩
+example : decValue "-012.50E+3" = some (-12500) := by decide +kernel
 example : str_to_man_exp "-012.50E+3" 0 = .ok (-125, 2) := by decide +kernel
 example : decValue ".5e-3" = some (5 / 10000) := by decide +kernel
-
-/-- `.0` is a decimal literal (value 0, accepted by `float()`), but `str_to_man_exp` raises ValueError:
-after stripping the zeros it calls `int('')`. Same for `-.0`, `.00e5`, …; replayed on the real code. -/
-theorem parse_value_counterexample :
-    decValue ".0" = some 0 ∧ floatOK ".0".toList = true ∧ str_to_man_exp ".0" 0 = .error .value ∧
-    from_str "-.00e5" 53 .n = .error .value := by decide +kernel
-
-/-- An underscore in the fraction (allowed by `float()`) is counted as a digit position:
-`str_to_man_exp("1.0_1") = (101, -3)`, i.e. 0.101, while `float("1.0_1") = 1.01`. Replayed on the real code. -/
-theorem parse_underscore_counterexample :
-    floatOK "1.0_1".toList = true ∧ str_to_man_exp "1.0_1" = .ok (101, -3) ∧
-    decValue "1.01" = some (101 / 100) ∧ ((101 : ℚ) * (10 : ℚ) ^ (-3 : ℤ) ≠ 101 / 100) := by
-  refine ⟨by decide +kernel, by decide +kernel, by decide +kernel, by norm_num⟩
+-- literals that the code rejected or mis-read before the repairs ad5f351 / 59f8b17
+example : decValue ".0" = some 0 ∧ str_to_man_exp ".0" 0 = .ok (0, 0) := by decide +kernel
+example : decValue "-.00e5" = some 0 ∧ str_to_man_exp "-.00e5" 0 = .ok (0, 5) := by decide +kernel
+example : decValue "1_0.0_1" = some (1001 / 100) ∧ str_to_man_exp "1_0.0_1" 0 = .ok (1001, -2) := by
+  decide +kernel
+example : decValue "1.5_0e1_0" = some 15000000000 ∧ str_to_man_exp "1.5_0e1_0" 0 = .ok (15, 9) := by
+  decide +kernel
+example : decValue "1__0" = none ∧ decValue "_1" = none ∧ decValue "1_.5" = none := by decide +kernel
 
 /-- With CPython's digit limit (modelled as a parameter; 4300 by default) a literal with more digits
 than the limit is rejected although it has a value. Shown here with limit 4. -/
@@ -69,20 +60,29 @@ theorem from_str_specials (prec : Int) (rnd : Rnd) :
 
 /-! ### the exact branch -/
 
-/-- **Exact branch.** If the parser's decimal exponent satisfies `|exp| ≤ 400`, `from_str` returns the
-correctly rounded value of the literal in every rounding mode (canonical result, at most `prec` bits).
-Hypotheses: `from_int` and `from_rational` round correctly (`FromIntRounds`, `FromRationalRounds`,
-proved with the arithmetic core); everything about parsing is proved here. -/
-theorem from_str_exact_round (hInt : FromIntRounds) (hRat : FromRationalRounds)
-    (s : String) (v : ℚ) (h : decValue s = some v) (hnd : v ≠ 0 ∨ StartsWithDigit s)
+/-- **Exact branch, unconditional.** For every decimal literal `s` (value `v`): if the parser's decimal
+exponent satisfies `|exp| ≤ 400`, then for every precision `prec > 0` and every rounding mode
+`from_str` returns the correctly rounded value of the literal — canonical result with at most `prec`
+bits that is the nearest (ties to even) / floor / ceiling / toward-zero / away-from-zero `prec`-bit
+number of `v`. Rests on the core theorems `from_int_spec` and `from_rational_spec`. -/
+theorem from_str_exact_round_full (s : String) (v : ℚ) (h : decValue s = some v)
     (man exp : Int) (hme : str_to_man_exp s 0 = .ok (man, exp)) (hexp : exp.natAbs ≤ 400)
     (prec : Int) (rnd : Rnd) (hprec : 0 < prec) :
     ∃ r, from_str s prec rnd 0 = .ok r ∧ RoundOK prec rnd v r :=
-  fromStr_exact_round hInt hRat h hnd hme hexp prec rnd hprec
+  fromStr_exact_round h hme hexp prec rnd hprec
 
-example : decValue "0.1" = some (1 / 10) ∧ StartsWithDigit "0.1" ∧
+example : decValue "0.1" = some (1 / 10) ∧
     str_to_man_exp "0.1" 0 = .ok (1, -1) ∧ from_str "0.1" 53 .n 0 = .ok ⟨0, 0xccccccccccccd, -55, 52⟩ :=
-  ⟨by decide +kernel, ⟨'0', _, rfl, by decide⟩, by decide +kernel, by decide +kernel⟩
+  ⟨by decide +kernel, by decide +kernel, by decide +kernel⟩
+
+/-- Corollary: directed conversions in the exact branch are on the right side of the literal. -/
+theorem from_str_directed_exact_branch (s : String) (v : ℚ) (h : decValue s = some v)
+    (man exp : Int) (hme : str_to_man_exp s 0 = .ok (man, exp)) (hexp : exp.natAbs ≤ 400)
+    (prec : Int) (hprec : 0 < prec) :
+    (∃ a, from_str s prec .f 0 = .ok a ∧ val a ≤ v) ∧ (∃ b, from_str s prec .c 0 = .ok b ∧ v ≤ val b) := by
+  obtain ⟨a, ha, hra⟩ := from_str_exact_round_full s v h man exp hme hexp prec .f hprec
+  obtain ⟨b, hb, hrb⟩ := from_str_exact_round_full s v h man exp hme hexp prec .c hprec
+  exact ⟨⟨a, ha, (hra.2.2 hprec).1.2.1⟩, ⟨b, hb, (hrb.2.2 hprec).1.2.1⟩⟩
 
 /-! ### the approximate branch (more than 400 fractional digits, or |exponent| > 400): D4 -/
 
@@ -135,5 +135,99 @@ theorem from_str_nearest_counterexample :
   rcases hr.2 _ hz with hlt | ⟨heq, _⟩
   · rw [h1, h2] at hlt; linarith
   · rw [h1, h2] at heq; linarith
+
+/-! ### intervals from strings: `mpi_from_str` (and `iv.mpf('…')`, which calls it)
+
+`Directed l v prec` (MpProofs/StrIv.lean): the floor and the ceiling conversion of the literal `l` with
+value `v` succeed with finite results `a ≤ v ≤ b`. It holds whenever `from_str` takes its exact branch
+(`directed_exact_branch` below, from `from_str_exact_round_full`); in the approximate branch it is false in
+general (D4), so the containment theorems inherit D4 through this hypothesis and only through it.
+`noSpaces s` is `s.replace(" ", "")`; `splitOn2 '+' '-'` is `split("+-")`; `splitOnC c` is `split(c)`.
+Each theorem lists the dispatch conditions of one textual form exactly as the code tests them. -/
+
+/-- the exact branch of `from_str` is directed (any precision, any literal with `|exp| ≤ 400`) -/
+theorem directed_exact_branch (l : List Char) (v : ℚ) (h : decValueU l = some v) (man exp : Int)
+    (hme : strToManExp l 0 = .ok (man, exp)) (hexp : exp.natAbs ≤ 400) (prec : Int) (hp : 0 < prec) :
+    Directed l v prec :=
+  directed_of_exact h hme hexp hp
+
+/-- form "-1.23e-27": a single literal `t` with value `v` gives an interval containing `v` -/
+theorem mpi_from_str_contains_plain (s : List Char) (prec : Int) (v : ℚ)
+    (h1 : (splitOn2 '+' '-' (noSpaces s)).length < 2) (h2 : (noSpaces s).contains '(' = false)
+    (h3 : (noSpaces s).contains ',' = false) (hd : Directed (noSpaces s) v prec) :
+    ∃ lo hi, mpi_from_str s prec 0 = .ok (lo, hi) ∧ val lo ≤ v ∧ v ≤ val hi := by
+  obtain ⟨lo, hi, h, -, -, l1, l2⟩ := endpoints_contains hd hd
+  exact ⟨lo, hi, by rw [mpi_from_str_plain h1 h2 h3, h], l1, l2⟩
+
+/-- form "[a, b]": the interval contains `[va, vb]` -/
+theorem mpi_from_str_contains_brackets (s a b : List Char) (prec : Int) (va vb : ℚ)
+    (h1 : (splitOn2 '+' '-' (noSpaces s)).length < 2) (h2 : (noSpaces s).contains '(' = false)
+    (h3 : (noSpaces s).contains ',' = true) (h4 : (noSpaces s).contains '[' = true)
+    (h5 : (noSpaces s).contains ']' = true) (h6 : (noSpaces s).head? = some '[')
+    (h7 : splitOnC ',' (((noSpaces s).filter (· != '[')).filter (· != ']')) = [a, b])
+    (ha : Directed a va prec) (hb : Directed b vb prec) :
+    ∃ lo hi, mpi_from_str s prec 0 = .ok (lo, hi) ∧ val lo ≤ va ∧ vb ≤ val hi := by
+  obtain ⟨lo, hi, h, -, -, l1, l2⟩ := endpoints_contains ha hb
+  exact ⟨lo, hi, by rw [mpi_from_str_brackets h1 h2 h3 h4 h5 h6 h7, h], l1, l2⟩
+
+/-- form "x[y,z]e": shared digits `x`, differing digits `y`, `z`, exponent part `e` (`e` present in the
+string): the interval contains `[value(xye), value(xze)]` -/
+theorem mpi_from_str_contains_shared_e (s x yz y z' z e : List Char) (prec : Int) (va vb : ℚ)
+    (h1 : (splitOn2 '+' '-' (noSpaces s)).length < 2) (h2 : (noSpaces s).contains '(' = false)
+    (h3 : (noSpaces s).contains ',' = true) (h4 : (noSpaces s).contains '[' = true)
+    (h5 : (noSpaces s).contains ']' = true) (h6 : (noSpaces s).head? ≠ some '[')
+    (h7 : splitOnC '[' (noSpaces s) = [x, yz]) (h8 : splitOnC ',' yz = [y, z'])
+    (h9 : (noSpaces s).contains 'e' = true) (h10 : splitOnC ']' z' = [z, e])
+    (ha : Directed (x ++ y ++ e) va prec) (hb : Directed (x ++ z ++ e) vb prec) :
+    ∃ lo hi, mpi_from_str s prec 0 = .ok (lo, hi) ∧ val lo ≤ va ∧ vb ≤ val hi := by
+  obtain ⟨lo, hi, h, -, -, l1, l2⟩ := endpoints_contains ha hb
+  exact ⟨lo, hi, by rw [mpi_from_str_shared_e h1 h2 h3 h4 h5 h6 h7 h8 h9 h10, h], l1, l2⟩
+
+/-- form "x[y,z]" without exponent -/
+theorem mpi_from_str_contains_shared (s x yz y z' : List Char) (prec : Int) (va vb : ℚ)
+    (h1 : (splitOn2 '+' '-' (noSpaces s)).length < 2) (h2 : (noSpaces s).contains '(' = false)
+    (h3 : (noSpaces s).contains ',' = true) (h4 : (noSpaces s).contains '[' = true)
+    (h5 : (noSpaces s).contains ']' = true) (h6 : (noSpaces s).head? ≠ some '[')
+    (h7 : splitOnC '[' (noSpaces s) = [x, yz]) (h8 : splitOnC ',' yz = [y, z'])
+    (h9 : (noSpaces s).contains 'e' = false)
+    (ha : Directed (x ++ y) va prec) (hb : Directed (x ++ rstripL (· == ']') z') vb prec) :
+    ∃ lo hi, mpi_from_str s prec 0 = .ok (lo, hi) ∧ val lo ≤ va ∧ vb ≤ val hi := by
+  obtain ⟨lo, hi, h, -, -, l1, l2⟩ := endpoints_contains ha hb
+  exact ⟨lo, hi, by rw [mpi_from_str_shared h1 h2 h3 h4 h5 h6 h7 h8 h9, h], l1, l2⟩
+
+/-- form "a +- b": midpoint `vx`, half-width `vy ≥ 0`; the interval contains `[vx - vy, vx + vy]`
+(the conversions run at `prec + 20` bits) -/
+theorem mpi_from_str_contains_pm (s x y : List Char) (prec : Int) (vx vy : ℚ) (hp : 0 < prec)
+    (h1 : splitOn2 '+' '-' (noSpaces s) = [x, y])
+    (hx : Directed x vx (prec + 20)) (hy : Directed y vy (prec + 20)) (hy0 : 0 ≤ vy) :
+    ∃ lo hi, mpi_from_str s prec 0 = .ok (lo, hi) ∧ val lo ≤ vx - vy ∧ vx + vy ≤ val hi := by
+  obtain ⟨lo, hi, h, -, -, l1, l2⟩ := mpi_from_str_a_b_contains hp hx hy hy0 false
+  exact ⟨lo, hi, by rw [mpi_from_str_pm h1, h], by simpa using l1, by simpa using l2⟩
+
+/-- forms "a (b)" and "a (b%)": half-width `vy`, or `|vx|·vy/100` when the string ends in `%` -/
+theorem mpi_from_str_contains_paren (s x y : List Char) (prec : Int) (vx vy : ℚ) (hp : 0 < prec)
+    (h1 : (splitOn2 '+' '-' (noSpaces s)).length < 2) (h2 : (noSpaces s).contains '(' = true)
+    (h3 : (noSpaces s).head? ≠ some '(') (h4 : (noSpaces s).contains ')' = true)
+    (h5 : ((noSpaces s).filter (· != ')')).contains '%' = true →
+      ((noSpaces s).filter (· != ')')).getLast? = some '%')
+    (h6 : splitOnC '(' (((noSpaces s).filter (· != ')')).filter (· != '%')) = [x, y])
+    (hx : Directed x vx (prec + 20)) (hy : Directed y vy (prec + 20)) (hy0 : 0 ≤ vy) :
+    ∃ lo hi, mpi_from_str s prec 0 = .ok (lo, hi) ∧
+      val lo ≤ vx - (if ((noSpaces s).filter (· != ')')).contains '%' then |vx| * vy / 100 else vy) ∧
+      vx + (if ((noSpaces s).filter (· != ')')).contains '%' then |vx| * vy / 100 else vy) ≤ val hi := by
+  obtain ⟨lo, hi, h, -, -, l1, l2⟩ :=
+    mpi_from_str_a_b_contains hp hx hy hy0 (((noSpaces s).filter (· != ')')).contains '%')
+  exact ⟨lo, hi, by rw [mpi_from_str_paren h1 h2 h3 h4 h5 h6, h], l1, l2⟩
+
+-- the dispatch conditions on concrete strings (non-vacuity), and the model's answers
+example : splitOn2 '+' '-' (noSpaces "1.5 +- 0.25".toList) = ["1.5".toList, "0.25".toList] := by decide +kernel
+example : splitOnC '(' (((noSpaces "1 (5%)".toList).filter (· != ')')).filter (· != '%')) = ["1".toList, "5".toList] ∧
+    ((noSpaces "1 (5%)".toList).filter (· != ')')).contains '%' = true := by decide +kernel
+example : splitOnC ',' (((noSpaces "[0.1, 0.2]".toList).filter (· != '[')).filter (· != ']')) =
+    ["0.1".toList, "0.2".toList] := by decide +kernel
+example : mpi_from_str "1.2[3,4]e5".toList 53 0 = .ok (⟨0, 15375, 3, 14⟩, ⟨0, 3875, 5, 12⟩) := by decide +kernel
+example : mpi_from_str "1 +- 0.5".toList 53 0 = .ok (⟨0, 1, -1, 1⟩, ⟨0, 3, -1, 2⟩) := by decide +kernel
+example : Directed "0.25".toList (1 / 4) 73 :=
+  directed_exact_branch _ _ (by decide +kernel) 25 (-2) (by decide +kernel) (by decide) 73 (by decide)
 
 end Mp
